@@ -231,7 +231,7 @@ func run(c Case, o *lib.Obs) error {
 	}
 	viaHidden, viaTest := false, false
 	for i := range k {
-		if k0[i] && !noHidden[i] {
+		if k0[i] && !noHidden[i] && !g.IsHidden(i) {
 			viaHidden = true
 		}
 		if !k0[i] {
